@@ -139,3 +139,19 @@ def frame (w : World α) (deltaNs : Nat) (chainFirst : Bool) (qFirst : Bool := f
     | .ok (aP, cP, evP) =>
       .ok ({ w with compP := cP, animP := aP, sel := sel', compQ := cQ, animQ := aQ,
                     pending := if qFirst then evP else evP ++ evQ }, evP, evQ)
+
+/-- Several animated entities in one `App`.  Each system iterates over all matching entities and treats them
+independently; the event queue is shared, but every `AnimationStateChanged` names its entity and `chain_animations`
+looks up the selector *of that entity*, so an entity's `pending` events are exactly its own.  One `App::update` is
+therefore one `frame` of every entity, under the same delta and the same system order. -/
+def frameAll (ws : List (World α)) (deltaNs : Nat) (chainFirst : Bool) (qFirst : Bool := false) :
+    Except Panic (List (World α × List AnimState × List AnimState)) :=
+  match ws with
+  | [] => .ok []
+  | w :: rest =>
+    match frame w deltaNs chainFirst qFirst with
+    | .error p => .error p
+    | .ok r =>
+      match frameAll rest deltaNs chainFirst qFirst with
+      | .error p => .error p
+      | .ok rs => .ok (r :: rs)
